@@ -75,10 +75,11 @@ class GatedAsync(Backend):
     async def _gate(self, label):
         idx = self.gate.enter(label)
         try:
-            ev = asyncio.Event()
-            self.gate.pending.append((label, ev.set))
-            self.gate.max_pending = max(self.gate.max_pending, len(self.gate.pending))
-            await ev.wait()
+            if not getattr(self.gate, 'open', False):
+                ev = asyncio.Event()
+                self.gate.pending.append((label, ev.set))
+                self.gate.max_pending = max(self.gate.max_pending, len(self.gate.pending))
+                await ev.wait()
             self.gate.order.append(label)
             if (self.gate.fail_at is not None and idx == self.gate.fail_at) or (self.gate.fail_from is not None and idx >= self.gate.fail_from):
                 raise (InjectedTimeout if getattr(self.gate, 'fail_kind', 'injected') == 'timeout' else InjectedFailure)(label)
@@ -151,12 +152,13 @@ class GatedPlain(Backend):
     def _gate(self, label):
         idx = self.gate.enter(label)
         try:
-            ev = threading.Event()
-            with self.gate.lock:
-                self.gate.pending.append((label, ev.set))
-                self.gate.max_pending = max(self.gate.max_pending, len(self.gate.pending))
-            if not ev.wait(30):
-                raise TimeoutError('gate never released')
+            if not getattr(self.gate, 'open', False):
+                ev = threading.Event()
+                with self.gate.lock:
+                    self.gate.pending.append((label, ev.set))
+                    self.gate.max_pending = max(self.gate.max_pending, len(self.gate.pending))
+                if not ev.wait(30):
+                    raise TimeoutError('gate never released')
             self.gate.order.append(label)
             if (self.gate.fail_at is not None and idx == self.gate.fail_at) or (self.gate.fail_from is not None and idx >= self.gate.fail_from):
                 raise (InjectedTimeout if getattr(self.gate, 'fail_kind', 'injected') == 'timeout' else InjectedFailure)(label)
@@ -612,6 +614,9 @@ def run_case(case, wd: Path, chooser_factory):
             if wf_fired:
                 # sequential semantics: a part of a file could not be written, so the command fails (with that error)
                 obs['writer_fail'] = True
+                # the command has failed; what its remaining loader jobs still ask of the backend is answered with an error at once (they
+                # are not driven any further by this harness and must not be left waiting in the gate with a slot in hand)
+                gate.fail_from = 0
                 await _slots_back(repo2, N, obs, 'restore', gate)
                 if exc is None:
                     obs['problems'].append(('a write into a restored file failed (EIO in a file-writer thread) yet restore reported success: the file is left with a hole', 'swallowed'))
@@ -694,16 +699,24 @@ def log_slots(repo, N, trace):
 async def _slots_back(repo, N, obs, phase, gate):
     """after success or failure every slot must come back; calls still in flight (the other workers of
     a failed command keep going until they notice) are let through meanwhile"""
-    for _ in range(600):
-        with gate.lock:
-            left = list(gate.pending)
-            gate.pending.clear()
-        for _, release in left:
-            release()
-        if not left and repo._slots.qsize() == N:
-            return
-        await asyncio.sleep(0.005)
-    obs['problems'].append((f'after {phase}: {repo._slots.qsize()} of {N} connection slots available', 'slots'))
+    # the phase is over (the command returned or raised): what its remaining jobs still ask of the backend passes the gate at once,
+    # and the pool must stay complete for a while (jobs that were still queued in a thread pool take and return their slots meanwhile)
+    gate.open = True
+    quiet = 0
+    try:
+        for _ in range(600):
+            with gate.lock:
+                left = list(gate.pending)
+                gate.pending.clear()
+            for _, release in left:
+                release()
+            quiet = quiet + 1 if (not left and repo._slots.qsize() == N) else 0
+            if quiet >= 8:
+                return
+            await asyncio.sleep(0.005)
+        obs['problems'].append((f'after {phase}: {repo._slots.qsize()} of {N} connection slots available', 'slots'))
+    finally:
+        gate.open = False
 
 
 _WD_COUNTER = itertools.count()
